@@ -2,16 +2,16 @@
 from harness import gen_loader, spec_loader
 
 MODEL = 'loader'
-RULE = ('seeded random scenarios: 2-7 component/processor classes (handlers of on_add / on_world_load / other '
+RULE = ('seeded random scenarios: 2-8 component/processor classes in inheritance chains (also below the default processors; handlers of on_add / on_world_load / other '
         'events under their own or renamed methods, priorities -2..2) living in a real importable module, '
         'a resolve table (classes, aliases through a namespace object, plain objects, objects deepcopy '
         'cannot copy, strings), a real ResourceMap tree with counting handles and the world handle in it, '
-        'a description of 0-3 processors and 0-4 entities (optional int/str ids, 0-3 components, 0-4 args, '
+        'a description of 0-5 processors (derived before base, base before derived, the same exact type twice) and 0-4 entities (optional int/str ids, 0-3 components, 0-4 args, '
         '0-3 kwargs, absent or empty args/kwargs/components keys) whose arguments are JSON scalars, nested '
         'lists/objects, exact references ${..} $res{..} $handle{..}, near-misses, marker-prefixed strings '
         'with trailing text / inner braces / newlines and unresolvable references; loaded as a JSON file '
         'by a WorldFromFileHandle (in the tree or free-standing), as a dictionary through a WorldHandle, '
-        'or with populate_world_from_dict on a World; plus 1-4 strings per scenario matched by the three '
+        'or with populate_world_from_dict on a World; in a third of the clean file scenarios 1-3 further loads of the same file against the same tree (world handle cleared and called again, or a second WorldFromFileHandle) with resource handles cleared and replaced in between, resolved values named by handle id and load counter; plus 1-4 strings per scenario matched by the three '
         'regular expressions of desper and by the model, and every string marker+w with w over {$ { } a . \\n} '
         'up to length 3 (quick) / 5 (thorough).  Non-trivial: the load succeeded and built at '
         'least one instance; distinct by hash of the scenario text.')
@@ -63,10 +63,12 @@ def stats(scenarios, impl_obs):
         c['instances'] += sum(1 for o in obs if o.startswith('inst '))
         c['callbacks'] += sum(1 for o in obs if o.startswith('cb '))
         c['rx_lines'] += sum(1 for o in obs if o.startswith('rx '))
+        c['further_loads'] += sum(1 for o in obs if o.startswith('load '))
+        c['proc_classes_with_base'] += sum(1 for ln in s if ln.startswith('cls ') and ' proc ' in ln and 'base=' in ln)
         c['rx_matches'] += sum(1 for o in obs if o.startswith('rx ') and o != 'rx - - -')
         for o in obs:
             if o.startswith('inst '):
                 for t in o.split()[3:]:
-                    if t[0] in 'RPHMC' and t[1:].isdigit() or t == 'HW':
+                    if t[0] in 'RPHMC' and t[1:].replace('.', '').isdigit() or t == 'HW':
                         c['resolved_' + t[0]] += 1
     return dict(c)
